@@ -22,6 +22,7 @@ type sb struct {
 	nextSid    uint32
 	state      string
 	held       bool // a goroutine of the relay is blocked inside a write toward the stalled client holding destMu
+	noWU       bool // no window updates: the case relies on an exact window arithmetic or on a closed window
 }
 
 func newSB(r *core.Rand) *sb {
@@ -88,10 +89,25 @@ func (b *sb) direct(dir, kind string) {
 
 func (b *sb) ping(dir string) { b.direct(dir, b.r.Pick(directKinds[:4]...)) }
 
+// wupdate: a WINDOW_UPDATE from dir that releases nothing (Work class `peer 0`: the PEER relay's flowMu
+// is taken and given back). sid 0 = the connection window.
+func (b *sb) wupdate(dir string, sid uint32) {
+	if b.noWU || b.zero[other(dir)] {
+		return
+	}
+	b.add("env deliver %s peer 0 : wupdate %d %d", dir, sid, b.r.Range(1, 70000))
+	core.Count("wupdate")
+}
+
 func (b *sb) newStream() uint32 {
 	sid := b.nextSid
 	b.nextSid += 2
 	b.headers("c2s", sid)
+	if b.r.Chance(1, 2) {
+		// the client enlarges its receive window for the stream right after its request HEADERS, before
+		// anything has flowed toward it on that stream (as nghttp2 / curl do)
+		b.wupdate("c2s", sid)
+	}
 	if b.r.Chance(3, 4) {
 		b.headers("s2c", sid)
 	}
@@ -116,6 +132,19 @@ func (b *sb) midStream() {
 	}
 	for i := b.r.Range(1, 8); i > 0; i-- {
 		sid := sids[b.r.Intn(len(sids))]
+		switch b.r.Intn(8) {
+		case 6: // a window update from either side: connection level, a stream in use, a stream never used / long gone
+			b.wupdate(b.r.Pick("c2s", "s2c"), []uint32{0, sid, 2*uint32(b.r.Range(500, 600)) + 1}[b.r.Intn(3)])
+			continue
+		case 7: // … directly followed by traffic the other way on that stream (it needs the same flowMu)
+			d := b.r.Pick("c2s", "s2c")
+			fresh := b.nextSid
+			b.nextSid += 2
+			b.wupdate(d, fresh)
+			b.headers(other(d), fresh)
+			b.data(other(d), fresh, b.r.Range(1, 200))
+			continue
+		}
 		switch b.r.Intn(6) {
 		case 0, 1:
 			b.data("c2s", sid, b.r.Range(0, 300))
@@ -138,6 +167,7 @@ func (b *sb) midStream() {
 // blocks on its per-stream queue behaves differently only past some length).
 func (b *sb) zeroWindow(d string, long bool) {
 	exhausted := b.r.Chance(1, 3)
+	b.noWU = true
 	var sid uint32
 	if exhausted {
 		sid = b.newStream()
